@@ -112,100 +112,140 @@ func contextBinding(res *vkit.Result, n *int) {
 // own in round 3.  A commitment is bound to its author: the opening must be refused under C's name, so no honest
 // party may finish (an honest party that finishes has let C cancel A's contribution to the chain key).
 func commitmentCopied(res *vkit.Result, n *int) {
+	type variant struct {
+		name string
+		ln   int
+		spec func(ids []party.ID) (*sess.Spec, error)
+		cmp  bool
+	}
+	var vs []variant
 	for _, tap := range []bool{false, true} {
 		for _, ln := range []int{1, 40} {
-			*n++
-			if !vkit.Mine(*n) {
-				continue
-			}
+			tap := tap
 			name := "frost-keygen"
 			if tap {
 				name = "frost-keygen-taproot"
 			}
-			ids := idShape(ln)
-			A, C := ids[0], ids[2]
-			sp := sess.FrostKeygen(ids, 1, tap)
-			sp.SessionID = []byte("sid")
-			net, startErr := sess.Build(sp, *vkit.Seed, "c09copy")
-			if len(startErr) > 0 {
-				res.Hard(fmt.Sprintf("commitment-copied: cannot start %s: %v", name, startErr))
-				continue
-			}
-			res.Case(fmt.Sprintf("binding|%s|ids=%d|commitment-and-opening-copied", name, ln))
-			field := func(id party.ID, rnd int, f string) interface{} {
-				for _, m := range net.Parties[id].Sent {
-					if int(m.RoundNumber) == rnd && m.Broadcast {
-						if tree, err := faults.Decode(m.Data); err == nil {
-							if mm, ok := tree.(map[interface{}]interface{}); ok {
-								return mm[f]
-							}
+			vs = append(vs, variant{name: name, ln: ln, spec: func(ids []party.ID) (*sess.Spec, error) { return sess.FrostKeygen(ids, 1, tap), nil }})
+		}
+	}
+	// CMP key generation: the whole round-3 broadcast (rid, chain key share, polynomial, Schnorr commitment,
+	// ElGamal key, Paillier modulus, Pedersen parameters and the decommitment) opens the round-2 commitment
+	vs = append(vs, variant{name: "cmp-keygen", ln: 1, cmp: true, spec: func(ids []party.ID) (*sess.Spec, error) { return sess.CMPKeygen(ids, 1), nil }})
+	for _, v := range vs {
+		*n++
+		if !vkit.Mine(*n) {
+			continue
+		}
+		name, ln := v.name, v.ln
+		ids := idShape(ln)
+		A, C := ids[0], ids[2]
+		sp, err := v.spec(ids)
+		if err != nil {
+			res.Hard(fmt.Sprintf("commitment-copied: cannot prepare %s: %v", name, err))
+			continue
+		}
+		sp.SessionID = []byte("sid")
+		net, startErr := sess.Build(sp, *vkit.Seed, "c09copy")
+		if len(startErr) > 0 {
+			res.Hard(fmt.Sprintf("commitment-copied: cannot start %s: %v", name, startErr))
+			continue
+		}
+		res.Case(fmt.Sprintf("binding|%s|ids=%d|commitment-and-opening-copied", name, ln))
+		bcast := func(id party.ID, rnd int) map[interface{}]interface{} {
+			for _, m := range net.Parties[id].Sent {
+				if int(m.RoundNumber) == rnd && m.Broadcast {
+					if tree, err := faults.Decode(m.Data); err == nil {
+						if mm, ok := tree.(map[interface{}]interface{}); ok {
+							return mm
 						}
 					}
 				}
+			}
+			return nil
+		}
+		// what C repeats of A's broadcast of round rnd: the commitment in round 2, every field in round 3
+		copied := func(rnd int) map[string]interface{} {
+			src := bcast(A, rnd)
+			if src == nil {
 				return nil
 			}
-			rewrite := func(data []byte, set map[string]interface{}) []byte {
-				tree, err := faults.Decode(data)
-				if err != nil {
-					return data
-				}
-				for f, v := range set {
-					if v == nil {
-						return data
-					}
-					if nt, ok := faults.Set(tree, "/"+f, v, false); ok {
-						tree = nt
-					}
-				}
-				return faults.Encode(tree)
-			}
-			net.Flush()
-			applied := 0
-			// C's own copy of its round-2 broadcast enters its echo hash: keep it consistent with what it sends
-			faults.RewriteOwnBroadcast(net.Parties[C].H, 2, C, func(d []byte) []byte {
-				return rewrite(d, map[string]interface{}{"Commitment": field(A, 2, "Commitment")})
-			})
-			for steps := 0; len(net.Queue) > 0 && steps < 10000; steps++ {
-				// C is rushing: its round-3 broadcast is held back until A's is out
-				pick := 0
-				for i, d := range net.Queue {
-					if d.M.From == C && d.M.Broadcast && d.M.RoundNumber == 3 && field(A, 3, "C_l") == nil {
-						continue
-					}
-					pick = i
-					break
-				}
-				d := net.Queue[pick]
-				net.Queue = append(append([]drv.Delivery{}, net.Queue[:pick]...), net.Queue[pick+1:]...)
-				m := d.M
-				if m.From == C && m.Broadcast && m.RoundNumber == 2 {
-					m = drv.CloneMsg(m)
-					m.Data = rewrite(m.Data, map[string]interface{}{"Commitment": field(A, 2, "Commitment")})
-					applied++
-				}
-				if m.From == C && m.Broadcast && m.RoundNumber == 3 {
-					m = drv.CloneMsg(m)
-					m.Data = rewrite(m.Data, map[string]interface{}{"C_l": field(A, 3, "C_l"), "Decommitment": field(A, 3, "Decommitment")})
-					applied++
-				}
-				net.Parties[d.To].Deliver(m)
-				net.Flush()
-			}
-			if applied < 4 {
-				res.Hard(fmt.Sprintf("commitment-copied %s: the deviation could not be applied (%d rewrites)", name, applied))
-				continue
-			}
-			for _, id := range ids {
-				if id == C {
+			out := map[string]interface{}{}
+			for k, val := range src {
+				ks, ok := k.(string)
+				if !ok || (rnd == 2 && ks != "Commitment") {
 					continue
 				}
-				if net.Parties[id].Status() == "done" {
-					res.Violate(fmt.Sprintf("context-binding|%s|commitment-opened-under-another-name", name),
-						fmt.Sprintf("%s with %d-byte identifiers: %s copied %s's chain-key commitment into its own round-2 broadcast and repeated %s's opening as its own in round 3; honest party %s finished the key generation (the opening was accepted under the wrong name, and the two contributions cancel in the chain key)",
-							name, ln, clipIDs([]string{string(C)}), clipIDs([]string{string(A)}), clipIDs([]string{string(A)}), clipIDs([]string{string(id)})),
-						map[string]interface{}{"binding": name + "/commitment-copied", "ids": ln})
-					break
+				out[ks] = val
+			}
+			return out
+		}
+		rewrite := func(data []byte, set map[string]interface{}) []byte {
+			tree, err := faults.Decode(data)
+			if err != nil || set == nil {
+				return data
+			}
+			for f, val := range set {
+				if val == nil {
+					return data
 				}
+				if nt, ok := faults.Set(tree, "/"+f, val, false); ok {
+					tree = nt
+				}
+			}
+			return faults.Encode(tree)
+		}
+		net.Flush()
+		applied := 0
+		// C's own copy of its round-2 broadcast enters its echo hash: keep it consistent with what it sends
+		faults.RewriteOwnBroadcast(net.Parties[C].H, 2, C, func(d []byte) []byte { return rewrite(d, copied(2)) })
+		for steps := 0; len(net.Queue) > 0 && steps < 10000; steps++ {
+			// C is rushing: its round-3 broadcast is held back until A's is out
+			pick := 0
+			for i, d := range net.Queue {
+				if d.M.From == C && d.M.Broadcast && d.M.RoundNumber == 3 && bcast(A, 3) == nil {
+					continue
+				}
+				pick = i
+				break
+			}
+			d := net.Queue[pick]
+			net.Queue = append(append([]drv.Delivery{}, net.Queue[:pick]...), net.Queue[pick+1:]...)
+			m := d.M
+			if m.From == C && m.Broadcast && (m.RoundNumber == 2 || m.RoundNumber == 3) {
+				m = drv.CloneMsg(m)
+				m.Data = rewrite(m.Data, copied(int(m.RoundNumber)))
+				applied++
+			}
+			net.Parties[d.To].Deliver(m)
+			net.Flush()
+		}
+		if applied < 4 {
+			res.Hard(fmt.Sprintf("commitment-copied %s: the deviation could not be applied (%d rewrites)", name, applied))
+			continue
+		}
+		for _, id := range ids {
+			if id == C {
+				continue
+			}
+			// FROST: the opening is the last thing checked, so acceptance shows as a finished session.  CMP: the
+			// opening is checked in round 3; a party that goes on to send its round-4 messages has accepted it
+			// (whatever a later round may find out).
+			accepted := net.Parties[id].Status() == "done"
+			how := "finished the key generation"
+			if v.cmp {
+				for _, m := range net.Parties[id].Sent {
+					if m.RoundNumber >= 4 {
+						accepted, how = true, "went on to round 4"
+					}
+				}
+			}
+			if accepted {
+				res.Violate(fmt.Sprintf("context-binding|%s|commitment-opened-under-another-name", name),
+					fmt.Sprintf("%s with %d-byte identifiers: %s copied %s's commitment into its own round-2 broadcast and repeated %s's opening as its own in round 3; honest party %s %s (the opening was accepted under the wrong name)",
+						name, ln, clipIDs([]string{string(C)}), clipIDs([]string{string(A)}), clipIDs([]string{string(A)}), clipIDs([]string{string(id)}), how),
+					map[string]interface{}{"binding": name + "/commitment-copied", "ids": ln})
+				break
 			}
 		}
 	}
